@@ -41,9 +41,9 @@ void CB_Dma_interrupt_handler(Dma *self) { (void)self; ghost_dma_irq++; }
 /* DSP memory.  CBMC: the footprint abstraction of extract/stdmodels.h (12 byte cells at arbitrary addresses with arbitrary contents;
  * one Tick touches at most 8 bytes, the frame check one more).  Native: a real 0x80000-byte array, zero background plus the same cells. */
 #ifdef VERIF_CBMC
-u64 verif_mem_addr[VERIF_MEM_CELLS]; u8 verif_mem_val[VERIF_MEM_CELLS];
+u32 verif_mem_addr[VERIF_MEM_CELLS]; u8 verif_mem_val[VERIF_MEM_CELLS];
 static u8 mem_dummy[1];
-#define MEM_SETUP(mem) u8 *mem = mem_dummy; for (int h_ = 0; h_ < VERIF_MEM_CELLS; h_++) { verif_mem_addr[h_] = cell_addr[h_]; verif_mem_val[h_] = cell_val[h_]; }
+#define MEM_SETUP(mem) u8 *mem = mem_dummy; for (int h_ = 0; h_ < VERIF_MEM_CELLS; h_++) { verif_mem_addr[h_] = (u32)cell_addr[h_]; verif_mem_val[h_] = cell_val[h_]; }
 #else
 static u8 mem_storage[0x80000];
 #define MEM_SETUP(mem) u8 *mem = mem_storage; memset(mem_storage, 0, sizeof mem_storage); for (int h_ = 11; h_ >= 0; h_--) { cell_addr[h_] &= 0x7FFFF; mem[cell_addr[h_]] = cell_val[h_]; }
